@@ -5,9 +5,8 @@ Local Open Scope string_scope.
 Local Open Scope list_scope.
 Local Open Scope Z_scope.
 
-(* whatever SPSDK accepts outside the finding classes is the specified command *)
+(* whatever SPSDK accepts is the specified command *)
 Theorem stmt_never_mistranslated :
-  forall c fs kbs s cmd, sclean s = true -> enc_at_start c kbs s = true ->
-    compile_impl c fs kbs s = Ok cmd -> stmt_spec c fs kbs s = Some cmd.
+  forall c fs kbs s cmd, compile_impl c fs kbs s = Ok cmd -> stmt_spec c fs kbs s = Some cmd.
 Proof. exact BdProofs.stmt_never_mistranslated. Qed.
 Print Assumptions stmt_never_mistranslated.
